@@ -80,6 +80,9 @@ struct ActiveChord<'a, T> {
     status: ActiveChordStatus,
     /// Tracks how old an action is.
     delay: u16,
+    /// Releases that were already queued in front of the presses this chord consumed: they
+    /// belong to earlier presses of those keys and must not release this chord.
+    ignore_releases: HVec<u16, SMOL_Q_LEN>,
 }
 
 fn tick_ach<T>(acc: &mut ActiveChord<T>) {
@@ -533,6 +536,30 @@ impl<'a, T> ChordsV2<'a, T> {
             // Remove one press per key of the chord, not every press of those keys: a key that
             // was released and pressed again before the chord fired keeps its second press.
             let mut presses_to_remove = accumulated_presses.clone();
+            {
+                let mut seen = HVec::<u16, SMOL_Q_LEN>::new();
+                let mut stale = HVec::<u16, SMOL_Q_LEN>::new();
+                for qd in self.queue.iter() {
+                    match qd.event {
+                        Event::Press(_, j) => {
+                            if accumulated_presses.contains(&j) && !seen.contains(&j) {
+                                let _ = seen.push(j);
+                            }
+                        }
+                        Event::Release(_, j) => {
+                            if !seen.is_empty()
+                                && accumulated_presses.contains(&j)
+                                && !seen.contains(&j)
+                            {
+                                let _ = stale.push(j);
+                            }
+                        }
+                    }
+                }
+                for ach in self.active_chords[prev_active_chords_len..].iter_mut() {
+                    ach.ignore_releases = stale.clone();
+                }
+            }
             self.queue.retain(|qd| match qd.event {
                 Event::Press(_, j) => match presses_to_remove.iter().position(|k| *k == j) {
                     Some(pos) => {
@@ -570,6 +597,10 @@ impl<'a, T> ChordsV2<'a, T> {
 fn release_key_from_active_chords<T>(achs: &mut [ActiveChord<T>], j: u16) {
     achs.iter_mut().for_each(|ach| {
         if !ach.participating_keys.contains(&j) {
+            return;
+        }
+        if let Some(pos) = ach.ignore_releases.iter().position(|k| *k == j) {
+            ach.ignore_releases.swap_remove(pos);
             return;
         }
         ach.remaining_keys_to_release.retain(|pk| *pk != j);
@@ -622,5 +653,6 @@ fn get_active_chord<'a, T>(
             ActiveChordStatus::Unread
         },
         delay: since,
+        ignore_releases: HVec::new(),
     }
 }
